@@ -27,6 +27,8 @@ hmod!(pub(crate) c01, "c01.rs");
 #[cfg(all(not(feature = "shuttle"), feature = "descriptive-gate"))]
 hmod!(pub(crate) c02, "c02.rs");
 #[cfg(all(not(feature = "shuttle"), feature = "descriptive-gate"))]
+hmod!(pub(crate) c02r, "c02r.rs");
+#[cfg(all(not(feature = "shuttle"), feature = "descriptive-gate"))]
 hmod!(pub(crate) c03, "c03.rs");
 #[cfg(all(not(feature = "shuttle"), feature = "descriptive-gate"))]
 hmod!(pub(crate) c04, "c04.rs");
